@@ -599,6 +599,12 @@ class Evaluator:
                         raise EvalRaise("KeyError")
                 if isinstance(recv, dict) and m == "get":
                     return recv.get(args[0], args[1] if len(args) > 1 else None)
+                if isinstance(recv, dict) and m in ("pop", "items", "keys", "values", "setdefault", "update", "copy"):
+                    try:
+                        r_ = getattr(recv, m)(*args, **kwargs)
+                    except KeyError:
+                        raise EvalRaise("KeyError")
+                    return list(r_) if m in ("items", "keys", "values") else r_
                 if isinstance(recv, str) and m in ("startswith", "endswith", "isdigit", "isalpha", "isalnum", "lower", "upper", "strip", "lstrip", "rstrip",
                                                    "removeprefix", "removesuffix", "partition", "rpartition", "split", "rsplit", "find", "count", "isidentifier"):
                     try:
